@@ -1,9 +1,13 @@
+mod alloc;
 mod exec;
 mod script;
 mod serde_doc;
 mod gen;
 
 use std::io::{BufRead, Write};
+
+#[global_allocator]
+static GLOBAL: alloc::Counting = alloc::Counting;
 
 fn main() {
     std::panic::set_hook(Box::new(|_| {}));
